@@ -82,6 +82,27 @@ def build() -> Check:
                     bad.append((f"{e.brief()[:70]} outside `with self._lock`", t))
         ck.ob("R1.lock-discipline", fn_construct(fn), not bad, (bad[0][0] + ": " + sig(bad[0][1])) if bad else f"{len(traces[m])} paths", cell=m)
 
+    # ---- reset: un-breaking is only sound when nobody is queued -------------------------------------
+    # a waiter woken by the break re-reads the broken flag *after* its wait and outside the inner lock; while any entry is queued such
+    # a waiter may exist, and clearing the flag then lets it (and its fellow waiters) proceed as owners at the same time
+    badr = []
+    n_unbreak = 0
+    for m, trs in traces.items():
+        for t in trs:
+            for e in t.events:
+                if e.kind == "SETATTR" and e.data["recv"] == "lock" and e.data["attr"] == "_is_broken" and e.data.get("value") in ("False", "Const(False)", False):
+                    n_unbreak += 1
+                    empty = any((k in ("truthy(lock._waiters)", "len(lock._waiters) > 0", "len(lock._waiters) != 0") and v is False)
+                                or (k in ("len(lock._waiters) == 0",) and v is True) for k, v in t.pc)
+                    cleared_before = any(x.kind == "EXT" and x.data["recv"] == "lock._waiters" and x.data["method"] in ("clear", "pop", "popleft") for x in t.events[: t.events.index(e)])
+                    if not empty:
+                        badr.append((f"{m}() clears the broken flag on a path that has not established an empty waiter queue "
+                                     f"({'it discards the queued entries itself' if cleared_before else 'queue may be non-empty'}): a waiter woken by the break "
+                                     "then passes its post-wait check and owns the lock together with the others", t))
+    ck.floor("unbreak_paths", n_unbreak, 1)
+    ck.ob("R4.unbreak-only-with-empty-queue", fn_construct(ol.methods["reset"]) if "reset" in ol.methods else "threading.py:OrderedLock", not badr,
+          (badr[0][0] + ": " + sig(badr[0][1])) if badr else f"{n_unbreak} path(s)")
+
     # ---- acquire ---------------------------------------------------------------------------------
     acq = ol.methods["acquire"]
     bad = []
